@@ -48,7 +48,7 @@ func (c vfDetCfg) motionConf() config.ThermalMotion {
 }
 
 func (c vfDetCfg) valid() string {
-	if c.W < 1 || c.H < 1 || c.W > 200 || c.H > 200 || c.Edge < 0 || 2*c.Edge >= c.W || 2*c.Edge >= c.H {
+	if c.W < 1 || c.H < 1 || c.W > 640 || c.H > 512 || c.Edge < 0 || 2*c.Edge >= c.W || 2*c.Edge >= c.H {
 		return "bad geometry"
 	}
 	if c.Count < 1 || c.Gap < 1 || c.Gap > 64 || c.PreviewFrames < 0 {
